@@ -233,6 +233,95 @@ def import_case(b, root, libs, opt, tag):
     return res
 
 
+# ------------------------------------------------------------------- mixed modules
+MIXED_LIBS = [("mx1", ["simple", "globals", "cstrings"]), ("mx2", ["enums", "props"]),
+              ("mx3", ["operators", "nested"])]
+
+
+def mixed_build_lib(b, root, be, lib, atoms, lo):
+    """One library of a mixed module: interrogate + compile to an object (shared by every
+    module that uses this (library, option set))."""
+    c = L.Case(b, os.path.join(root, "mxlib-" + be), atoms, lo, tag="%s@%s" % (lib, lo.key), library=lib)
+    r = c.interrogate()
+    out = {"lib": lib, "opt": lo.key, "dir": c.dir, "cmd": " ".join(r.cmd), "status": "ok", "sig": "",
+           "in": None if lo.has("nodb") else c.od}
+    if r.rc != 0:
+        out.update(status="noexit0" if (r.rc or 0) > 0 else "crash", sig="interrogate exit %s" % r.rc)
+        return out
+    obj = os.path.join(c.dir, "igate.o")
+    rc, txt = L.compile_obj(b, c.dir, c.oc, obj)
+    if rc != 0:
+        out.update(status="compile", sig=norm_sig(txt), out=txt[:2000])
+        return out
+    dobj = os.path.join(c.dir, "defs.o")
+    rc, txt = L.compile_obj(b, c.dir, os.path.join(c.dir, "defs.cxx"), dobj)
+    if rc != 0:
+        raise HarnessError("companion definitions of %s do not compile: %s" % (lib, L.first_error(txt)))
+    out["objs"] = [obj, dobj]
+    return out
+
+
+def mixed_module(b, root, be, parts, tag):
+    """parts: [built library dict].  interrogate_module over the libraries that have a database,
+    compile, link with ALL code files, import."""
+    d = os.path.join(root, tag)
+    shutil.rmtree(d, ignore_errors=True)
+    os.makedirs(d)
+    res = {"status": "ok", "sig": "", "steps": [p["cmd"] for p in parts]}
+    ins = [p["in"] for p in parts if p["in"]]
+    if not ins:
+        res["status"] = "skipped"        # no library has a database: nothing to make a module of
+        return res
+    modcxx = os.path.join(d, "m_module.cxx")
+    cmd = [b["interrogate_module"], "-" + be, "-module", "m", "-library", "m", "-oc", modcxx] + ins
+    r = tools.run(cmd, cwd=d, timeout=300, b=b)
+    res["steps"].append(" ".join(cmd))
+    if r.rc != 0 or not os.path.exists(modcxx):
+        res.update(status="module", sig="interrogate_module exit %s" % r.rc, out=(r.err + r.out)[-800:])
+        return res
+    mobj = os.path.join(d, "m_module.o")
+    rc, out = L.gxx(L.cxx_flags(b, [d]) + ["-c", modcxx, "-o", mobj], d)
+    if rc != 0:
+        res.update(status="compile", sig=norm_sig(out), out=out[:2500])
+        return res
+    so = os.path.join(d, "m.so")
+    rc, out = L.gxx(["-shared", "-o", so, mobj] + [o for p in parts for o in p["objs"]], d)
+    if rc != 0:
+        res.update(status="link", sig=norm_sig(out), out=out[:2500])
+        return res
+    code = "import sys; sys.path.insert(0, %r)\nimport m as M\nprint('LOADED', len(dir(M)))" % d
+    r = pynative.run_python(code, so, timeout=120)
+    if r.rc != 0 or "LOADED" not in r.out:
+        tail = (r.err or "").strip().splitlines()
+        res.update(status="import", sig=(tail[-1] if tail else "rc=%s" % r.rc)[:240], out=(r.err or "")[-1500:])
+        return res
+    res["loaded"] = r.out.strip()
+    shutil.rmtree(d, ignore_errors=True)
+    return res
+
+
+def mixed_assignments(be, thorough):
+    """Per-library option assignments for modules of 2 (and 3) libraries."""
+    import itertools
+    allo = L.LibOpt.all(be)
+    plain = [o for o in allo if not o.has("string") and not o.has("nodb")]
+    out = []
+    if be == "python" or thorough:
+        out += [(a, c) for a in allo for c in allo]                    # every pair of the 24
+    else:
+        # python-native does not look at the naming flags when it writes the module glue: all
+        # naming pairs, plus every -string/-nodb combination on both sides for the default naming
+        out += [(a, c) for a in plain for c in plain]
+        dflt = [o for o in allo if not set(o.flags) - {"string", "nodb"}]
+        out += [(a, c) for a in dflt for c in dflt if (a, c) not in out]
+    if thorough:
+        out += list(itertools.product(plain, repeat=3))
+    else:
+        out += [(a, c, e) for a in plain for c in plain for e in (plain[0], plain[3])
+                if a.key != c.key][:(20 if be == "python" else 8)]
+    return out
+
+
 def runtime_unit(b, d):
     rd = os.path.join(d, "rt")
     os.makedirs(rd, exist_ok=True)
@@ -478,6 +567,232 @@ def main():
     failures = []       # (header name, opt, res)
     nrej = 0
 
+    # the small decisive families run first, the big lattice last (it is the one that is cut when
+    # the deadline hits on a loaded machine)
+    # ---------------- phase 3: hash collisions
+    if want("collisions") and not ck.expired(reserve=60):
+        nfun = 20000
+        groups, nwr = find_collisions(b, root, nfun)
+        ck.extra["collision_library"] = {"functions": nfun, "wrappers": nwr,
+                                         "colliding_groups": len(groups),
+                                         "largest_group": max([len(v) for v in groups.values()] or [0])}
+        if not groups:
+            raise HarnessError("no colliding signature hash among %d functions" % nfun)
+        copts = [L.Opt("c", "fnames"), L.Opt("c", "fptrs", ("unique-names",)),
+                 L.Opt("python", "fnames"), L.Opt("python", "none", ("unique-names", "do-module"))]
+        if thorough:
+            copts += [L.Opt("c", "fnames", ("nodb",)) , L.Opt("python", "fnames", ("true-names",)) ][:1]
+        cj = []
+        for h, fns in groups.items():
+            for perm in itertools.permutations(fns):
+                for o in copts:
+                    cj.append((h, perm, o))
+
+        def runc(j):
+            h, perm, o = j
+            tag = "hc-%s-%s-%s" % (re.sub(r"\W", "_", h), "_".join(p.split("_")[1] for p in perm),
+                                   o.key.replace("+", "_"))
+            return j, collision_case(b, root, perm, o, tag)
+        cfail = {}
+        for (h, perm, o), res in pmap(runc, cj):
+            key = "collision|%s|%s" % (",".join(perm), o.key)
+            ck.note(key, nontrivial=res.get("collided", 0) >= 1 and res.get("same4", 0) >= 1, family="collisions",
+                    outcome="collision:%s:%s" % (res["status"], o.backend),
+                    sample={"functions": perm, "options": o.argv(), "names": res.get("names")})
+            if res["status"] not in ("ok",):
+                cfail.setdefault((o.backend, res["status"], res["sig"]), []).append((key, perm, o, res))
+        # constructed groups of k = 2..5 colliding signatures (vf/lib_c03.collision_groups), every
+        # declaration order, both hash-using back-ends x {-fnames, -unique-names, -fptrs}
+        cgroups = []
+        for g in L.collision_groups():
+            probe = collision_case(b, root, [], L.Opt("c", "fnames"), "cg-probe-" + g.name, header=g.header())
+            names = probe.get("names") or []
+            # the group's own wrappers are the ones sharing the first four hash characters with
+            # at least len(members) - 1 others; the tool confirms the construction
+            by4 = {}
+            for n in names:
+                by4.setdefault(n[4 + 4:4 + 8], []).append(n)
+            big = max((len(v) for v in by4.values()), default=0)
+            if probe["status"] == "noexit0" or big < len(g.members):
+                ck.cap("constructed group %s is not a %d-way collision for this tool (largest: %d)"
+                       % (g.name, len(g.members), big))
+                continue
+            cgroups.append(g)
+        ck.extra["constructed_groups"] = {g.name: {"form": g.form, "size": len(g.members),
+                                                   "signatures": [m[1] for m in g.members],
+                                                   "predicted_hashes": g.predicted()} for g in cgroups}
+        gopts = [L.Opt(be, nm, fl) for be in ("c", "python")
+                 for nm, fl in (("fnames", ()), ("none", ("unique-names",)), ("fptrs", ()))]
+        gj = [(g, k, order, o) for g in cgroups for k, order in L.group_orders(g) for o in gopts]
+
+        def rung(j):
+            g, k, order, o = j
+            tag = "cg-%s-%s-%s" % (g.name, "".join(map(str, order)), o.key.replace("+", "_"))
+            return j, collision_case(b, root, [g.members[i][0] for i in order], o, tag, header=g.header(order))
+        for i in range(0, len(gj), 256):
+            if ck.expired(reserve=60):
+                ck.cap("deadline: constructed collision groups stopped after %d of %d cases" % (i, len(gj)))
+                break
+            for (g, k, order, o), res in pmap(rung, gj[i:i + 256]):
+                key = "group|%s|%s|%s" % (g.name, "".join(map(str, order)), o.key)
+                ck.note(key, nontrivial=res.get("same4", 0) >= k - 1, family="constructed-collisions",
+                        outcome="group%d:%s:%s" % (k, res["status"], o.backend),
+                        sample={"group": g.name, "order": list(order), "options": o.argv(),
+                                "names": res.get("names")})
+                if res["status"] != "ok":
+                    cfail.setdefault((o.backend, res["status"], res["sig"]), []).append(
+                        (key, [g.members[i][0] for i in order], o, res))
+
+        for (be, st, sig), members in sorted(cfail.items()):
+            key, perm, o, res = sorted(members, key=lambda m: (m[2].deviations(), m[2].key, m[0]))[0]
+            ck.fail(key, "hash collision %s: %s [smallest of %d colliding-library case(s) of back-end -%s with "
+                         "this observation]" % (st, sig, len(members), be),
+                    {"observed": sig, "kind": "collision", "fns": list(perm), "opt": o.key,
+                     "result": res, "same_observation_cases": sorted(m[0] for m in members)[:300]},
+                    confirm=lambda perm=perm, o=o, st=st, hdr=res.get("header"):
+                    collision_case(b, root, perm, o, "hc-confirm", header=hdr)["status"] == st)
+
+        # two libraries of one module whose *names* hash alike, each with one member of a
+        # colliding signature pair: both wrappers would get the same symbol and unique name
+        pair, nprobed = find_library_collision(b, root)
+        ck.extra["library_name_probe"] = {"names_tried": nprobed, "colliding": pair}
+        if pair is not None:
+            la, lb, _h = pair
+            xj = []
+            for h, fns in list(groups.items())[:3]:      # same three pairs in both tiers
+                for f1, f2 in itertools.permutations(fns[:2]):
+                    for o in (L.Opt("c", "fnames"), L.Opt("python", "fnames")):
+                        xj.append(([(la, [f1]), (lb, [f2])], o))
+
+            def runx(j):
+                libs, o = j
+                tag = "xl-%s-%s-%s" % (libs[0][1][0], libs[1][1][0], o.key.replace("+", "_"))
+                return j, crosslib_case(b, root, libs, o, tag)
+            xfail = {}
+            for g in cgroups:
+                if g.form.startswith("free functions") and not g.eqsec:
+                    for o in (L.Opt("c", "fnames"), L.Opt("python", "fnames")):
+                        xj.append(([(la, [g.members[0][0]]), (lb, [g.members[1][0], g.members[2][0]])], o))
+            for (libs, o), res in pmap(runx, xj):
+                key = "crosslib|%s|%s" % (",".join("%s:%s" % (l, f[0]) for l, f in libs), o.key)
+                ck.note(key, nontrivial=bool(res.get("same_libhash")), family="collisions-across-libraries",
+                        outcome="crosslib:%s:%s" % (res["status"], o.backend),
+                        sample={"libraries": libs, "options": o.argv(), "names": res.get("names")})
+                if res["status"] != "ok":
+                    xfail.setdefault((o.backend, res["status"], res["sig"]), []).append((key, libs, o, res))
+            for (be, st, sig), members in sorted(xfail.items()):
+                # harvested pairs (hc_*) rank before constructed groups, so the reported key is stable
+                key, libs, o, res = sorted(members, key=lambda m: ("hc_" not in m[0], m[0]))[0]
+                ck.fail(key, "colliding library-name and signature hashes: %s: %s [smallest of %d case(s)]"
+                        % (st, sig, len(members)),
+                        {"observed": sig, "kind": "crosslib", "libs": libs, "opt": o.key, "result": res,
+                         "same_observation_cases": sorted(m[0] for m in members)},
+                        confirm=lambda libs=libs, o=o, st=st:
+                        crosslib_case(b, root, libs, o, "xl-confirm")["status"] == st)
+
+    # ---------------- phase 5: modules whose libraries were interrogated with DIFFERENT options
+    if want("mixed") and not ck.expired(reserve=90):
+        mfail = {}
+        for be in ("python", "python-native"):
+            assigns = [a for a in mixed_assignments(be, thorough) if not any(o.rejected() for o in a)]
+            need = sorted({(i, o.key): (i, o) for a in assigns for i, o in enumerate(a)}.values(),
+                          key=lambda x: (x[0], x[1].key))
+
+            def buildlib(io):
+                i, o = io
+                lib, atoms = MIXED_LIBS[i]
+                return (i, o.key), mixed_build_lib(b, root, be, lib, atoms, o)
+            built = dict(pmap(buildlib, need))
+            for (i, k), p in sorted(built.items()):
+                ck.note("mixedlib|%s|%s|%s" % (be, MIXED_LIBS[i][0], k), nontrivial=p["status"] == "ok",
+                        outcome="mixedlib:%s:%s" % (p["status"], be), family="mixed-modules",
+                        sample={"library": MIXED_LIBS[i][0], "options": p["cmd"].split()[-8:], "status": p["status"]})
+                if p["status"] not in ("ok", "noexit0"):
+                    mfail.setdefault((be, "lib-" + p["status"], p["sig"]), []).append(
+                        ("mixedlib|%s|%s|%s" % (be, MIXED_LIBS[i][0], k), be, None, p))
+
+            def runm(a):
+                parts = [built[(i, o.key)] for i, o in enumerate(a)]
+                if any(p["status"] != "ok" for p in parts):
+                    return a, {"status": "libfailed", "sig": ""}
+                tag = "mx-%s-%s" % (be, "_".join(o.key for o in a).replace("+", "."))
+                return a, mixed_module(b, root, be, parts, tag)
+            for i0 in range(0, len(assigns), 128):
+                if ck.expired(reserve=60):
+                    ck.cap("deadline: mixed %s modules stopped after %d of %d" % (be, i0, len(assigns)))
+                    break
+                for a, res in pmap(runm, assigns[i0:i0 + 128]):
+                    key = "mixed|%s|%s" % (be, ",".join("%s:%s" % (MIXED_LIBS[i][0], o.key) for i, o in enumerate(a)))
+                    ck.note(key, nontrivial=res["status"] not in ("skipped", "libfailed"), family="mixed-modules",
+                            outcome="mixed%d:%s:%s" % (len(a), res["status"], be),
+                            sample={"libraries": [[MIXED_LIBS[i][0]] + o.argv() for i, o in enumerate(a)],
+                                    "status": res["status"], "loaded": res.get("loaded")})
+                    if res["status"] not in ("ok", "skipped", "libfailed"):
+                        mfail.setdefault((be, res["status"], res["sig"]), []).append((key, be, a, res))
+        for (be, st, sig), members in sorted(mfail.items()):
+            key, be, a, res = sorted(members, key=lambda m: (len(m[0]), m[0]))[0]
+            if a is None:
+                conf = None
+            else:
+                def conf(a=a, be=be, st=st):
+                    parts = [mixed_build_lib(b, os.path.join(root, "mx-confirm"), be, MIXED_LIBS[i][0],
+                                             MIXED_LIBS[i][1], o) for i, o in enumerate(a)]
+                    if any(p["status"] != "ok" for p in parts):
+                        return False
+                    return mixed_module(b, root, be, parts, "mx-confirm-mod")["status"] == st
+            ck.fail(key, "mixed module %s: %s [smallest of %d module(s) of back-end -%s with this observation]"
+                    % (st, sig, len(members), be),
+                    {"observed": sig, "kind": "mixed", "backend": be,
+                     "libs": None if a is None else [[MIXED_LIBS[i][0], list(o.flags)] for i, o in enumerate(a)],
+                     "result": {k: v for k, v in res.items() if k != "objs"},
+                     "same_observation_cases": sorted(m[0] for m in members)[:400]},
+                    confirm=conf)
+
+    # ---------------- phase 4: full link + import
+    if want("import") and not ck.expired(reserve=90):
+        if thorough:
+            iopts = [o for o in L.lattice(None, backends=("python", "python-native"))
+                     if not o.rejected()]
+            # -python without -fnames exports nothing that could be linked differently; keep all
+            iopts += [L.Opt.from_key(k) for k in IMPORT_QUICK if k.startswith("c")]
+        else:
+            iopts = [L.Opt.from_key(k) for k in IMPORT_QUICK]
+        plain, nasty = L.GROUPS["plain"], L.GROUPS["nasty"]
+        ij = []
+        for o in iopts:
+            if o.has("do-module"):
+                ij.append((o, [("l", plain + nasty)]))
+            else:
+                ij.append((o, [("l1", plain), ("l2", nasty)]))
+
+        def runi(j):
+            o, libs = j
+            return j, import_case(b, root, libs, o, "imp-" + o.key)
+        ifail = {}
+        done = 0
+        for i in range(0, len(ij), 16):
+            if ck.expired(reserve=60):
+                ck.cap("deadline: link+import stopped after %d of %d option sets" % (done, len(ij)))
+                break
+            for (o, libs), res in pmap(runi, ij[i:i + 16], workers=8):
+                done += 1
+                key = "import|%s" % o.key
+                ck.note(key, nontrivial=res["status"] not in ("skipped",), family="link+import",
+                        outcome="import:%s:%s" % (res["status"], o.backend),
+                        sample={"options": o.argv(), "libraries": [l for l, _ in libs],
+                                "status": res["status"], "loaded": res.get("loaded")})
+                if res["status"] not in ("ok", "skipped"):
+                    ifail.setdefault((o.backend, res["status"], res["sig"]), []).append((o, libs, res))
+        for (be, st, sig), members in sorted(ifail.items()):
+            o, libs, res = sorted(members, key=lambda m: (m[0].deviations(), m[0].key))[0]
+            key = "import|%s" % o.key
+            ck.fail(key, "link+import %s: %s [%d option sets of back-end -%s show the same error]"
+                    % (st, sig, len(members), be),
+                    {"observed": sig, "kind": "import", "opt": o.key, "libs": libs, "result": res,
+                     "same_error_option_sets": sorted(m[0].key for m in members)[:400]},
+                    confirm=lambda o=o, libs=libs, st=st:
+                    import_case(b, root, libs, o, "imp-confirm")["status"] == st)
+
     # ---------------- phase 1: lattice x batched headers
     if want("lattice"):
         jobs = [(hn, o) for o in opts for hn, _ in hdrs]
@@ -601,172 +916,6 @@ def main():
                      "header": L.header_text(L.atoms_for(names, o))},
                     confirm=confirm)
 
-    # ---------------- phase 3: hash collisions
-    if want("collisions") and not ck.expired(reserve=60):
-        nfun = 20000
-        groups, nwr = find_collisions(b, root, nfun)
-        ck.extra["collision_library"] = {"functions": nfun, "wrappers": nwr,
-                                         "colliding_groups": len(groups),
-                                         "largest_group": max([len(v) for v in groups.values()] or [0])}
-        if not groups:
-            raise HarnessError("no colliding signature hash among %d functions" % nfun)
-        copts = [L.Opt("c", "fnames"), L.Opt("c", "fptrs", ("unique-names",)),
-                 L.Opt("python", "fnames"), L.Opt("python", "none", ("unique-names", "do-module"))]
-        if thorough:
-            copts += [L.Opt("c", "fnames", ("nodb",)) , L.Opt("python", "fnames", ("true-names",)) ][:1]
-        cj = []
-        for h, fns in groups.items():
-            for perm in itertools.permutations(fns):
-                for o in copts:
-                    cj.append((h, perm, o))
-
-        def runc(j):
-            h, perm, o = j
-            tag = "hc-%s-%s-%s" % (re.sub(r"\W", "_", h), "_".join(p.split("_")[1] for p in perm),
-                                   o.key.replace("+", "_"))
-            return j, collision_case(b, root, perm, o, tag)
-        cfail = {}
-        for (h, perm, o), res in pmap(runc, cj):
-            key = "collision|%s|%s" % (",".join(perm), o.key)
-            ck.note(key, nontrivial=res.get("collided", 0) >= 1 and res.get("same4", 0) >= 1, family="collisions",
-                    outcome="collision:%s:%s" % (res["status"], o.backend),
-                    sample={"functions": perm, "options": o.argv(), "names": res.get("names")})
-            if res["status"] not in ("ok",):
-                cfail.setdefault((o.backend, res["status"], res["sig"]), []).append((key, perm, o, res))
-        # constructed groups of k = 2..5 colliding signatures (vf/lib_c03.collision_groups), every
-        # declaration order, both hash-using back-ends x {-fnames, -unique-names, -fptrs}
-        cgroups = []
-        for g in L.collision_groups():
-            probe = collision_case(b, root, [], L.Opt("c", "fnames"), "cg-probe-" + g.name, header=g.header())
-            names = probe.get("names") or []
-            # the group's own wrappers are the ones sharing the first four hash characters with
-            # at least len(members) - 1 others; the tool confirms the construction
-            by4 = {}
-            for n in names:
-                by4.setdefault(n[4 + 4:4 + 8], []).append(n)
-            big = max((len(v) for v in by4.values()), default=0)
-            if probe["status"] == "noexit0" or big < len(g.members):
-                ck.cap("constructed group %s is not a %d-way collision for this tool (largest: %d)"
-                       % (g.name, len(g.members), big))
-                continue
-            cgroups.append(g)
-        ck.extra["constructed_groups"] = {g.name: {"form": g.form, "size": len(g.members),
-                                                   "signatures": [m[1] for m in g.members],
-                                                   "predicted_hashes": g.predicted()} for g in cgroups}
-        gopts = [L.Opt(be, nm, fl) for be in ("c", "python")
-                 for nm, fl in (("fnames", ()), ("none", ("unique-names",)), ("fptrs", ()))]
-        gj = [(g, k, order, o) for g in cgroups for k, order in L.group_orders(g) for o in gopts]
-
-        def rung(j):
-            g, k, order, o = j
-            tag = "cg-%s-%s-%s" % (g.name, "".join(map(str, order)), o.key.replace("+", "_"))
-            return j, collision_case(b, root, [g.members[i][0] for i in order], o, tag, header=g.header(order))
-        for i in range(0, len(gj), 256):
-            if ck.expired(reserve=60):
-                ck.cap("deadline: constructed collision groups stopped after %d of %d cases" % (i, len(gj)))
-                break
-            for (g, k, order, o), res in pmap(rung, gj[i:i + 256]):
-                key = "group|%s|%s|%s" % (g.name, "".join(map(str, order)), o.key)
-                ck.note(key, nontrivial=res.get("same4", 0) >= k - 1, family="constructed-collisions",
-                        outcome="group%d:%s:%s" % (k, res["status"], o.backend),
-                        sample={"group": g.name, "order": list(order), "options": o.argv(),
-                                "names": res.get("names")})
-                if res["status"] != "ok":
-                    cfail.setdefault((o.backend, res["status"], res["sig"]), []).append(
-                        (key, [g.members[i][0] for i in order], o, res))
-
-        for (be, st, sig), members in sorted(cfail.items()):
-            key, perm, o, res = sorted(members, key=lambda m: (m[2].deviations(), m[2].key, m[0]))[0]
-            ck.fail(key, "hash collision %s: %s [smallest of %d colliding-library case(s) of back-end -%s with "
-                         "this observation]" % (st, sig, len(members), be),
-                    {"observed": sig, "kind": "collision", "fns": list(perm), "opt": o.key,
-                     "result": res, "same_observation_cases": sorted(m[0] for m in members)[:300]},
-                    confirm=lambda perm=perm, o=o, st=st, hdr=res.get("header"):
-                    collision_case(b, root, perm, o, "hc-confirm", header=hdr)["status"] == st)
-
-        # two libraries of one module whose *names* hash alike, each with one member of a
-        # colliding signature pair: both wrappers would get the same symbol and unique name
-        pair, nprobed = find_library_collision(b, root)
-        ck.extra["library_name_probe"] = {"names_tried": nprobed, "colliding": pair}
-        if pair is not None:
-            la, lb, _h = pair
-            xj = []
-            for h, fns in list(groups.items())[:3]:      # same three pairs in both tiers
-                for f1, f2 in itertools.permutations(fns[:2]):
-                    for o in (L.Opt("c", "fnames"), L.Opt("python", "fnames")):
-                        xj.append(([(la, [f1]), (lb, [f2])], o))
-
-            def runx(j):
-                libs, o = j
-                tag = "xl-%s-%s-%s" % (libs[0][1][0], libs[1][1][0], o.key.replace("+", "_"))
-                return j, crosslib_case(b, root, libs, o, tag)
-            xfail = {}
-            for g in cgroups:
-                if g.form.startswith("free functions") and not g.eqsec:
-                    for o in (L.Opt("c", "fnames"), L.Opt("python", "fnames")):
-                        xj.append(([(la, [g.members[0][0]]), (lb, [g.members[1][0], g.members[2][0]])], o))
-            for (libs, o), res in pmap(runx, xj):
-                key = "crosslib|%s|%s" % (",".join("%s:%s" % (l, f[0]) for l, f in libs), o.key)
-                ck.note(key, nontrivial=bool(res.get("same_libhash")), family="collisions-across-libraries",
-                        outcome="crosslib:%s:%s" % (res["status"], o.backend),
-                        sample={"libraries": libs, "options": o.argv(), "names": res.get("names")})
-                if res["status"] != "ok":
-                    xfail.setdefault((o.backend, res["status"], res["sig"]), []).append((key, libs, o, res))
-            for (be, st, sig), members in sorted(xfail.items()):
-                # harvested pairs (hc_*) rank before constructed groups, so the reported key is stable
-                key, libs, o, res = sorted(members, key=lambda m: ("hc_" not in m[0], m[0]))[0]
-                ck.fail(key, "colliding library-name and signature hashes: %s: %s [smallest of %d case(s)]"
-                        % (st, sig, len(members)),
-                        {"observed": sig, "kind": "crosslib", "libs": libs, "opt": o.key, "result": res,
-                         "same_observation_cases": sorted(m[0] for m in members)},
-                        confirm=lambda libs=libs, o=o, st=st:
-                        crosslib_case(b, root, libs, o, "xl-confirm")["status"] == st)
-
-    # ---------------- phase 4: full link + import
-    if want("import") and not ck.expired(reserve=90):
-        if thorough:
-            iopts = [o for o in L.lattice(None, backends=("python", "python-native"))
-                     if not o.rejected()]
-            # -python without -fnames exports nothing that could be linked differently; keep all
-            iopts += [L.Opt.from_key(k) for k in IMPORT_QUICK if k.startswith("c")]
-        else:
-            iopts = [L.Opt.from_key(k) for k in IMPORT_QUICK]
-        plain, nasty = L.GROUPS["plain"], L.GROUPS["nasty"]
-        ij = []
-        for o in iopts:
-            if o.has("do-module"):
-                ij.append((o, [("l", plain + nasty)]))
-            else:
-                ij.append((o, [("l1", plain), ("l2", nasty)]))
-
-        def runi(j):
-            o, libs = j
-            return j, import_case(b, root, libs, o, "imp-" + o.key)
-        ifail = {}
-        done = 0
-        for i in range(0, len(ij), 16):
-            if ck.expired(reserve=60):
-                ck.cap("deadline: link+import stopped after %d of %d option sets" % (done, len(ij)))
-                break
-            for (o, libs), res in pmap(runi, ij[i:i + 16], workers=8):
-                done += 1
-                key = "import|%s" % o.key
-                ck.note(key, nontrivial=res["status"] not in ("skipped",), family="link+import",
-                        outcome="import:%s:%s" % (res["status"], o.backend),
-                        sample={"options": o.argv(), "libraries": [l for l, _ in libs],
-                                "status": res["status"], "loaded": res.get("loaded")})
-                if res["status"] not in ("ok", "skipped"):
-                    ifail.setdefault((o.backend, res["status"], res["sig"]), []).append((o, libs, res))
-        for (be, st, sig), members in sorted(ifail.items()):
-            o, libs, res = sorted(members, key=lambda m: (m[0].deviations(), m[0].key))[0]
-            key = "import|%s" % o.key
-            ck.fail(key, "link+import %s: %s [%d option sets of back-end -%s show the same error]"
-                    % (st, sig, len(members), be),
-                    {"observed": sig, "kind": "import", "opt": o.key, "libs": libs, "result": res,
-                     "same_error_option_sets": sorted(m[0].key for m in members)[:400]},
-                    confirm=lambda o=o, libs=libs, st=st:
-                    import_case(b, root, libs, o, "imp-confirm")["status"] == st)
-
     return ck.finish(
         rule="one case = (header built from atoms, option set) run through the real interrogate and "
              "g++ (or a colliding-hash library in one declaration order, or a full build+import of a "
@@ -790,11 +939,22 @@ def replay(ck, b):
     rp = ck.load_replay()
     d = rp["detail"]
     root = ck.scratch()
-    o = L.Opt.from_key(d["opt"])
+    o = L.Opt.from_key(d["opt"]) if d.get("opt") else None
     if d["kind"] == "lattice":
         res = evaluate(b, root, d["atoms"], o, "replay", mode_for(o))
     elif d["kind"] == "collision":
         res = collision_case(b, root, d["fns"], o, "replay", header=(d.get("result") or {}).get("header"))
+    elif d["kind"] == "mixed":
+        be = d["backend"]
+        if not d.get("libs"):
+            print("library-level failure:", d["result"].get("cmd"), d["result"].get("sig"))
+            ck.cleanup()
+            return 1
+        idx = {n: i for i, (n, _a) in enumerate(MIXED_LIBS)}
+        parts = [mixed_build_lib(b, root, be, n, MIXED_LIBS[idx[n]][1], L.LibOpt(be, fl)) for n, fl in d["libs"]]
+        res = mixed_module(b, root, be, parts, "replay-mod") if all(p["status"] == "ok" for p in parts) \
+            else {"status": "libfailed", "sig": [p["sig"] for p in parts]}
+        res["opt"] = d["libs"]
     elif d["kind"] == "crosslib":
         res = crosslib_case(b, root, [(l, f) for l, f in d["libs"]], o, "replay")
     else:
